@@ -10,6 +10,9 @@ import PromVerif.Drv.C19
 import PromVerif.Drv.C17
 import PromVerif.Drv.C14
 import PromVerif.Drv.C18
+import PromVerif.Drv.C08
+import PromVerif.Drv.C02
+import PromVerif.Drv.C16
 namespace PromVerif.Drv
 
 def dispatch (m : String) (args : List String) : String :=
@@ -26,6 +29,9 @@ def dispatch (m : String) (args : List String) : String :=
   | "c17" => C17.handle args
   | "om" => C14.handle args
   | "c18" => C18.handle args
+  | "c08" => C08.handle args
+  | "c02" => C02.handle args
+  | "c16" => C16.handle args
   | _ => "err unknown-module"
 
 end PromVerif.Drv
